@@ -55,6 +55,10 @@ def tasks(tier, seed):
     shs = [s for s in shapes.shape_set(tier, seed, quick_n=10, thorough_n=90) if s.ns <= 3]
     shs = shs[:14] if tier == 'quick' else shs[:80]
     for I in shs:
+        if lpchecks.is_wide(I):
+            # 13^3 assignments x 2^12 closure branches per assignment: is_valid on the two-digit shapes is exercised by the
+            # end-to-end tasks below (concrete quotas) instead
+            continue
         for pc in (False, True):
             out.append({'kind': 'valid', 'shape': lpchecks.shape_data(I), 'pc': pc})
     n = 60 if tier == 'quick' else 600
